@@ -165,3 +165,71 @@ func H_C18_hook() {
 	vAssert(oc == oError, "under the alt tag the bexpr tag name does not resolve")
 	vCover("reached")
 }
+
+// H_C18_fixed_at_creation: the options are read when the evaluator is
+// created; what the caller does afterwards with the slice it passed — reuse
+// it for another evaluator, overwrite or clear an entry — is not an option
+// given to this evaluator and changes nothing.
+func H_C18_fixed_at_creation() {
+	expr := exprsC18[3+vChoose(len(exprsC18)-3)]
+	u := interface{}(vInt8())
+	k2, c2 := vChoose(4), vChoose(3)
+	k3, c3 := (k2+vChoose(2))%4, vChoose(3) // the later write is an option of the same kind, or of the next one
+	d := datumC18()
+	base := make([]Option, 1, 4) // spare capacity, as in opts = append(base, ...)
+	base[0] = WithMaxExpressions(0)
+	mine := append(base, optC18(k2, c2, u))
+	ev, err := CreateEvaluator(expr, mine...)
+	vAssume(err == nil)
+	o1, _, _ := evalO(ev, d)
+	switch vChoose(3) {
+	case 0: // a second evaluator derived from the same base slice
+		other := append(base, optC18(k3, c3, u))
+		CreateEvaluator(expr, other...)
+	case 1: // an entry overwritten
+		mine[1] = optC18(k3, c3, u)
+	default: // the slice cleared
+		mine[0], mine[1] = nil, nil
+	}
+	o2, _, _ := evalO(ev, d)
+	vAssert(o1 == o2, "options are fixed at creation; later writes to the caller's slice change nothing: "+expr)
+	vCover("reached")
+}
+
+// H_C18_unknown_applies: the unknown value is what an absent key or field
+// evaluates to on every call, at any depth, whatever other options accompany
+// it and in whatever order: the outcome equals that of a datum holding the
+// value at that place, evaluated without the option.
+func H_C18_unknown_applies() {
+	u := vInt8()
+	v := vInt8()
+	expr := []string{`m.zz == 1`, `m.zz != 1`, `zz == 1`, `m.n.zz == 1`, `1 in m.zz`, `any l as x { x.zz == 1 }`, `"/m/zz" == 1`}[vChoose(7)]
+	mk := func(with bool) map[string]interface{} {
+		inner := map[string]interface{}{"k": v}
+		deep := map[string]interface{}{"k": v}
+		el := map[string]interface{}{"k": v}
+		d := map[string]interface{}{"m": inner, "l": []interface{}{el}}
+		inner["n"] = deep
+		if with {
+			inner["zz"], deep["zz"], el["zz"], d["zz"] = u, u, u, u
+		}
+		return d
+	}
+	other := []Option{nil, WithTagName("alt"), WithHookFn(hookIdentityC18), WithMaxExpressions(0)}[vChoose(4)]
+	opts := []Option{WithUnknownValue(u)}
+	if other != nil {
+		if vBool() {
+			opts = []Option{other, WithUnknownValue(u)}
+		} else {
+			opts = []Option{WithUnknownValue(u), other}
+		}
+	}
+	evU, err := CreateEvaluator(expr, opts...)
+	vAssume(err == nil)
+	o1, _, _ := evalO(evU, mk(false))
+	o2, _, _ := evalO(mustCreate(expr), mk(true))
+	vAssert(o1 == o2, "an absent key evaluates as the unknown value: "+expr)
+	o3, _, _ := evalO(evU, mk(false))
+	vAssert(o1 == o3, "on every call: "+expr)
+	vCover("reached")
+}
